@@ -70,7 +70,9 @@ func H_Legacy_Apply() {
 	}
 	if ref.Err != eNone {
 		op := ops[ref.FailedAt]
-		demanded := ref.Err == eTestFailed || ref.IdxOut || (ref.Err == eMissing && (op.Kind == OpRemove || op.Kind == OpMove))
+		// the classes the property names: failed test, remove/move of an absent location, index out of range,
+		// and a negative index while the SupportNegativeIndices setting is off
+		demanded := ref.Err == eTestFailed || ref.IdxOut || ref.NegUsedOff || (ref.Err == eMissing && (op.Kind == OpRemove || op.Kind == OpMove))
 		if demanded {
 			vx.Assert(err != nil, "C18/inapplicable-operation-is-an-error")
 			vx.Assert(err == nil || out == nil, "C18/no-document-on-error")
